@@ -118,6 +118,13 @@ func EndBlocker(ctx sdk.Context, k keeper.Keeper) {
 		}
 
 		k.DeleteNewRequestBatch(ctx, requestContextID, ctx.BlockHeight())
+
+		// the owning module may have started the context again from its state callback:
+		// keep it scheduled, the batch is tried again in the next block
+		if rc, found := k.GetRequestContext(ctx, requestContextID); found && rc.State == types.RUNNING &&
+			!k.HasRequestBatchExpiration(ctx, requestContextID) && !k.HasNewRequestBatch(ctx, requestContextID) {
+			k.AddNewRequestBatch(ctx, requestContextID, ctx.BlockHeight()+1)
+		}
 	}
 
 	// handle the expired request batch queue
